@@ -525,7 +525,10 @@ def contracts(reg):
     for c in C07.contracts(reg):
         if c.target.startswith(C07.ROUTER):
             c.assumed = True
-            c.note = "verified by the C07 pack"
+            # call-site view only: the SAME contract object class is verified on the real body in this run by the EXTRA task
+            # `conform[router.py::<fn>]` (contracts/c12_conform.py), so the verified contract implies the applied one trivially;
+            # a function whose conformance is not proved in the run stays on the assumed list of the evidence
+            c.note = "call-site view; verified in the C12 run by contracts/c12_conform.py (same contract as pack C07)"
             out.append(c)
     # (after C07.contracts: it re-installs the shared read_file models)
     reg.method_models[("BytesIO", "seek")] = m_seek2
@@ -873,8 +876,8 @@ def _native_scope(which):
 
 
 def _extra():
-    from contracts import c12_cost
-    return [_native_scope("explicit-limits"), _native_scope("repeat-attribute-classes"), _native_scope("zip-bomb-classes"), _native_scope("7z-declared-sizes"), _cost("guard_exemptions"), _cost("sevenzip_collisions"), _cost("rescan_obligations"), policy, _cost("self_suffix_obligations"), _cost("xml_policy"), _cost("nested_scan_obligations")] + [_carve_task(k) for k in c12_cost.carve_tasks()]
+    from contracts import c12_cost, c12_conform
+    return c12_conform.extras() + [_native_scope("explicit-limits"), _native_scope("repeat-attribute-classes"), _native_scope("zip-bomb-classes"), _native_scope("7z-declared-sizes"), _cost("guard_exemptions"), _cost("sevenzip_collisions"), _cost("rescan_obligations"), policy, _cost("self_suffix_obligations"), _cost("xml_policy"), _cost("nested_scan_obligations")] + [_carve_task(k) for k in c12_cost.carve_tasks()]
 
 
 EXTRA = _extra()
@@ -912,7 +915,9 @@ def known_findings(kf, violations, repo, tier):
 
 
 TRUSTED = ["defusedxml forbids entity expansion", "stat().st_size is the size read_file would read"]
-ASSUMED_MODELS = ["pathlib.Path.stat/st_size", "open()", "io.BytesIO.seek/tell (position, SEEK_END = size)", "router contracts (C07)"]
+# (the four router functions are no longer listed here: each is verified in the run by `conform[router.py::<fn>]`; one that is not
+#  proved shows up in `assumed_contracts` under its own target, see pyvc/check.py `verified_assumed`)
+ASSUMED_MODELS = ["pathlib.Path.stat/st_size", "open()", "io.BytesIO.seek/tell (position, SEEK_END = size)"]
 BOUNDED = ["native-scope#explicit-limits, native-scope#zip-bomb-classes, native-scope#7z-declared-sizes and native-scope#repeat-attribute-classes: directed native runs of the replayer on every check (never counted as proved)"]
 ASSUMPTIONS = ["peak memory and run time as quantities are not decided (not expressible as contracts); what is decided are the structural causes of super-linear cost: "
                "unbounded repeat expansion (amp-bounded#repeat-site), overlapping carving of a scanned buffer (amp-bounded#carve-while-k: copies of different iterations "
